@@ -104,6 +104,16 @@ Example C15_example_identical :
   merge_channels (s [102;46;105;110;105]) [ex_old; ex_old; ex_old] = Ok (concat (map c_text ex_old)).
 Proof. vm_compute. reflexivity. Qed.
 
+(* the hypothesis of C15_identical is needed: two adjacent whitespace entries are folded
+   into one as soon as there is a second version *)
+Theorem C15_identical_adjacent_refuted :
+  exists name p v, get_parser name = Ok (Some p) /\ ukeys v /\
+    merge_channels name [v; v] <> Ok (concat (map c_text v)).
+Proof.
+  exists (s [102;46;105;110;105]), 3, [ws [10]; ws [32]]. split; [vm_compute; reflexivity|].
+  split; [constructor|]. vm_compute. discriminate.
+Qed.
+
 Example C15_example_parser :
   get_parser (s [102;46;116;120;116]) = Ok None /\
   get_parser (s [97;46;112;114;111;112;101;114;116;105;101;115]) = Ok (Some 2).
